@@ -440,8 +440,29 @@ def generated(draw, tier):
     return dict(base=list(base), mut=["tree", [0x30, draw(st.sampled_from(LIES)), parts]])
 
 
+FUZZ_BASES = [b for b in BASES("thorough")]
+
+
+def fuzz_case(data: bytes):
+    """decode fuzzer bytes: the first octet selects the entry path / base, the rest is the datagram"""
+    if not data:
+        return None
+    base = FUZZ_BASES[data[0] % len(FUZZ_BASES)]
+    return dict(base=list(base), mut=["raw", data[1:].hex()])
+
+
+def fuzz_corpus():
+    return [bytes([i]) + base_bytes(b) for i, b in enumerate(FUZZ_BASES)]
+
+
 def units(tier, seed):
     us = []
+    if tier == "thorough":
+        import vfuzz
+
+        for k, corpus in enumerate((fuzz_corpus(), [], fuzz_corpus())):
+            us.append(Unit("atheris-%d" % k, vfuzz.fuzz_unit, mode="c20", runs=60000, seed=shard_seed(seed, 50 + k),
+                           label="atheris-%d%s" % (k, "-empty-corpus" if not corpus else ""), corpus=corpus, max_len=1600, wall_s=900))
     for base in BASES(tier):
         nm = "-".join(base)
         for k in range(2):
